@@ -76,9 +76,10 @@ class _Fn:
         self.b = r.normal(size=n_out)
 
     def __call__(self, *args):
-        x = np.concatenate([np.atleast_1d(np.asarray(a, dtype=float)).ravel() for a in args] + [[1.0]])
+        cplx = any(np.iscomplexobj(a) for a in args)
+        x = np.concatenate([np.atleast_1d(np.asarray(a, dtype=complex if cplx else float)).ravel() for a in args] + [[1.0]])
         y = np.sin(self.W @ x + self.b)
-        return y.reshape(self.shape) if self.shape else float(y[0])
+        return y.reshape(self.shape) if self.shape else (y[0] if cplx else float(y[0]))
 
 
 class FakeBody:
@@ -952,6 +953,44 @@ class Machine:
                     d = "shape" if a.shape != b.shape else float(np.max(np.abs(a - b)))
                     classes = sorted({type(c).__name__ for c in cs})
                     self.bad("scatter_mismatch", name, f"op {k}: System.{name} differs from the dense scatter of the contributions' local {name} by {d} (state {si}; contributions {classes})")
+                    return
+            if si == 0:
+                self.complex_step(k, R, S)
+                if self.out["violations"]:
+                    return
+
+    def complex_step(self, k, R, S):
+        """The library offers complex-step differentiation ("cs"): a kinematic / force evaluation handed complex
+        velocities must carry the imaginary part through the scatter (result type follows the arguments)."""
+        s = self.system
+        t, q = S["t"], S["q"]
+        uc = S["u"] + 1j * 1e-3 * S["ud"]
+        with warnings.catch_warnings():
+            warnings.simplefilter("ignore")
+            for name, sysf, fam, dim, loc in (
+                ("q_dot", lambda: s.q_dot(t, q, uc), "q_dot", "nq", lambda c: c.q_dot(t, q[R.q(c)], uc[R.u(c)])),
+            ):
+                try:
+                    ref = np.zeros(R.n[dim], dtype=complex)
+                    for c in R.cs:
+                        if _has(c, fam):
+                            ref[R.d(c, dim)] = np.asarray(loc(c), dtype=complex)
+                except Exception:
+                    self.out["probes"]["complex_step_reference_unavailable"] += 1
+                    continue
+                try:
+                    got = np.asarray(sysf())
+                except Exception as e:
+                    self.bad("scatter_mismatch", name + "/complex_step", f"op {k}: System.{name} raised {type(e).__name__}: {e} for complex velocities although every contribution's local method evaluates")
+                    return
+                self.out["probes"]["complex_step_compared"] += 1
+                tol = 1e-12 * (1 + float(np.max(np.abs(ref))) if ref.size else 1)
+                if got.shape != ref.shape or (ref.size and float(np.max(np.abs(got - ref))) > tol):
+                    self.bad(
+                        "scatter_mismatch",
+                        name + "/complex_step",
+                        f"op {k}: System.{name} with complex velocities (complex-step differentiation) differs from the scatter of the contributions' local {name}: imaginary part max {float(np.max(np.abs(np.imag(got)))) if got.size else 0.0:.3e} vs {float(np.max(np.abs(np.imag(ref)))) if ref.size else 0.0:.3e} (result dtype {np.asarray(got).dtype})",
+                    )
                     return
 
     def snapshot_layout(self):
